@@ -1604,3 +1604,19 @@ package gkvlite
 //@   ensures [C03,C02,C14,C12,C08,C09,C19,C07] root-record-geometry: rootsEndLen == 24 && rootsLen == 44
 //@   ensures [C14,C03] magic-markers: len(MagicBeg) == 6 && MagicBeg[0] == 48 && MagicBeg[1] == 103 && MagicBeg[2] == 49 && MagicBeg[3] == 116 && MagicBeg[4] == 50 && MagicBeg[5] == 114 && len(MagicEnd) == 6 && MagicEnd[0] == 51 && MagicEnd[1] == 101 && MagicEnd[2] == 52 && MagicEnd[3] == 97 && MagicEnd[4] == 53 && MagicEnd[5] == 112
 //@   ensures [C14] empty-location: plocEmpty != nil && plocEmpty.Offset == 0 && plocEmpty.Length == 0
+
+//@ func (*Collection).Write
+//@   props C07 C09 C03 C04 C05
+//@   from: doc comment ("Write dirty items of a collection BUT does NOT write new root records"); C07 (no reachable panic; errors propagate), C04 (read-only stores refuse), C09 (append-only)
+//@   requires [C05,C18] nolocks: locks == emptyLocks()
+//@   requires t != nil && t.store != nil && t.rootLock != nil && t.store.size >= 0
+//@   requires [C07] open-handle: t.root != nil
+//@   relies root-lock-is-private: t.rootLock != ref(freeNodeLock) && t.rootLock != ref(freeNodeLocLock) && t.rootLock != ref(freeRootNodeLocLock)
+//@   relies [C04] current-version-is-live: t.root.refs >= 1 && t.root.root != nil && t.root.next == nil
+//@   modifies rootNodeLoc.refs, rootNodeLoc.root, rootNodeLoc.next, rootNodeLoc.chainedCollection, rootNodeLoc.chainedRootNodeLoc, node.numNodes, node.numBytes, node.next, itemLoc.loc, itemLoc.item, nodeLoc.loc, nodeLoc.node, nodeLoc.next, mem.ptr, G.freeNodes, G.freeNodeLocs, G.freeRootNodeLocs, AllocStats.CurFreeNodes, AllocStats.FreeNodes, AllocStats.CurFreeNodeLocs, AllocStats.FreeNodeLocs, AllocStats.CurFreeRootNodeLocs, AllocStats.FreeRootNodeLocs, ghost net, ghost tvs, t.store.nodeAllocs, new ploc.Offset, new ploc.Length, new node.numNodes, new node.numBytes, new node.next, new itemLoc.loc, new itemLoc.item, new nodeLoc.loc, new nodeLoc.node, new nodeLoc.next, new Item.Key, new Item.Val, new Item.Priority, new Item.Transient, new mem.byte, ghost io.fails, ghost io.reads, ghost io.valbytes, ghost src, ghost orphans, itemLoc.loc, nodeLoc.loc, t.store.size, new ploc.Offset, new ploc.Length, new mem.byte, ghost fbytes, ghost flen, ghost io.fails, ghost io.writes, ghost io.minoff
+//@   ensures [C07] E1: io.fails >= old(io.fails) && (io.fails > old(io.fails) ==> result != nil)
+//@   ensures [C04] read-only-store-refuses: t.store.readOnly ==> result != nil && fbytes == old(fbytes) && flen == old(flen) && t.store.size == old(t.store.size) && io.writes == old(io.writes)
+//@   ensures [C07] memory-only-store-refuses: t.store.file == nil ==> result != nil && t.store.size == old(t.store.size)
+//@   ensures [C09,C03] size-monotone: t.store.size >= old(t.store.size) && io.writes >= old(io.writes)
+//@   ensures [C09,C03] bytes-below-old-size-unchanged: t.store.file != nil ==> samePrefix(fbytes[t.store.file], old(fbytes[t.store.file]), old(t.store.size))
+//@   ensures [C04,C01] changes-no-contents: tvs == old(tvs) && ias == old(ias) && t.root == old(t.root) && rootNodeLoc.root == old(rootNodeLoc.root)
